@@ -2,7 +2,7 @@ package webrtc
 
 // C07 — An answer mirrors the offer's m-sections one-for-one.
 // Bounded exhaustive enumeration: the full product of synthetic remote offers of
-// 1..3 m-sections, each section one of 45 alternatives (media type x direction
+// 1..3 m-sections, each section one of 46 alternatives (media type x direction
 // attribute incl. none x codec list), x local side x MediaEngine; one
 // PeerConnection per case (SetRemoteDescription(offer) -> CreateAnswer, no
 // network). Second part: two negotiation rounds on one PeerConnection where the
@@ -42,6 +42,9 @@ var c07Alts = func() []c07Alt {
 			out = append(out, c07Alt{m, d, "n/a"})
 		}
 	}
+	// an application section with an attribute pion knows only behind an option (SNAP) and whose value does not
+	// decode (unpadded base64): an attribute to ignore, not a reason to drop the section
+	out = append(out, c07Alt{"application", "", "sctp-init-undecodable"})
 
 	return out
 }()
@@ -64,6 +67,10 @@ func c07Section(a c07Alt, mid string) vAnsSection {
 
 		return s
 	case "application", "message":
+		if a.Codecs == "sctp-init-undecodable" {
+			s.Extra = []string{"a=sctp-init:AQIDBA"}
+		}
+
 		return s
 	}
 	switch a.Codecs {
